@@ -20,7 +20,9 @@ PROGRAMS = {
                        "            for _ in range(3000):\n                pass\n"
                        "    except BaseException:\n        pass\n"),
     "blocked": "gate.acquire()\nprint('woke')\n",
-    "importer": "import helper_loop\n",
+    # (the statements after the import can only run if the exit injected into the imported file is lost on the way out)
+    "importer": ("import helper_loop\nafter_import = 1\nwhile not stop_flag[0]:\n    print('s')\n"
+                 "    for _ in range(3000):\n        pass\n"),
     # the clean-up clause fails while the thread unwinds from the injected exit
     "unwinder": "log = None\ntotal = 0\ntry:\n    while True:\n        total = total + 1\nfinally:\n    log.close()\n",
     "printer_slow": "while True:\n    print('s')\n    for i in range(20000):\n        pass\n",
@@ -53,6 +55,11 @@ def run_kind(kind, allowed=0.08, fin_n=200000, controller=None):
     orig_out, orig_sleep = sys.stdout, time.sleep
     report = Report()
     # suffix _tn: the LATER execution is threaded too (and, for a blocked student, releases the lock it waits for)
+    # suffix _nat: the sandbox traces with the native tracer (what the GradeScope environment installs)
+    full_kind = kind
+    native = kind.endswith("_nat")
+    if native:
+        kind = kind[:-4]
     next_threaded = kind.endswith("_tn")
     base = kind[:-3] if next_threaded else kind
     src = PROGRAMS[base]
@@ -65,6 +72,8 @@ def run_kind(kind, allowed=0.08, fin_n=200000, controller=None):
     sb.allowed_time = allowed
     if base == "importer":
         sb.threaded = True
+    if native:
+        sb.tracer_style = "native"
     gate = threading.Lock()
     gate.acquire()
     stop_flag = [False]
@@ -74,7 +83,7 @@ def run_kind(kind, allowed=0.08, fin_n=200000, controller=None):
     if controller is not None:
         sb.data["vsync"] = controller.student_sync
     before_threads = set(student_threads())
-    o = Obs(kind=kind, allowed=allowed)
+    o = Obs(kind=full_kind, allowed=allowed)
     t0 = time.time()
     try:
         C.run(report=report, threaded=True)
@@ -92,7 +101,7 @@ def run_kind(kind, allowed=0.08, fin_n=200000, controller=None):
         controller.before_next_run()
     try:
         # (for the loud swallower the later run is long enough for the zombie thread to be scheduled)
-        nxt = "for i in range(400000):\n    pass\nprint('n')" if base in ("swallower_loud", "catcher_loud") else "print('n')"
+        nxt = "for i in range(400000):\n    pass\nprint('n')" if base in ("swallower_loud", "catcher_loud", "importer") else "print('n')"
         if next_threaded:
             # long enough for the abandoned thread to be scheduled and die while this execution is under way
             nxt = ("gate.release()\n" if base == "blocked" else "") + "for i in range(300000):\n    pass\nprint('n')"
@@ -120,6 +129,8 @@ def run_kind(kind, allowed=0.08, fin_n=200000, controller=None):
     first_exec = [f for f in rfb if "print('n')" not in str(getattr(f.fields.get("context", [[None]])[0][-1] if f.fields.get("context") else None, "code", ""))]
     o["runtime_fbs"] = [type(f.fields.get("exception")).__name__ for f in rfb]
     o["exc_quiescent"] = type(sb.exception).__name__ if sb.exception is not None else "none"
+    # names bound by statements that lie BEHIND the code that never ends: the namespace later calls start from
+    o["ran_past_endless"] = "after_import" in sb.data
     o["patches"] = len(sb._current_patches)
     o["stdouts"] = len(sb._current_stdout)
     o["pOut"] = "real" if sys.stdout is orig_out else "patched"
@@ -159,6 +170,8 @@ def judge(o, bound_extra=2.0):
         bad.append("StacksEmpty")
     if o["next_status"] != "returned" or o["next_exc"] != "none" or o["next_output"] != "n\n":
         bad.append("NextRunClean")
+    if o.get("ran_past_endless"):
+        bad.append("NextRunClean:namespace")
     # an abandoned thread that can be interrupted (everything but a swallower, or a thread still blocked on its lock)
     # must be dead once things are quiet: a thread that keeps running keeps altering later executions
     if "thread_alive_at_quiescence" in o and o["kind"].split("_")[0] not in ("swallower",) and o["kind"] != "blocked" \
@@ -330,6 +343,8 @@ def run_kind_forced(kind, allowed, ctl):
         o["thread_alive_at_quiescence"] = any(t.is_alive() for t in mine)
     rfb = [f for f in report.feedback if f.category == "runtime"]
     o["runtime_fbs"] = [type(f.fields.get("exception")).__name__ for f in rfb]
+    # names bound by statements that lie BEHIND the code that never ends: the namespace later calls start from
+    o["ran_past_endless"] = "after_import" in sb.data
     o["patches"] = len(sb._current_patches)
     o["stdouts"] = len(sb._current_stdout)
     o["pOut"] = "real" if sys.stdout is orig_out else "patched"
